@@ -11,6 +11,7 @@ mod chan_adm;
 mod chan_bundle;
 mod chan_corrupt;
 mod chan_eid;
+mod chan_ffi;
 mod chan_hex;
 mod chan_json;
 mod chan_now;
@@ -51,6 +52,7 @@ fn run_line(line: &str) -> String {
         "SCHED" => chan_now::sched(args),
         "VALIDATE" => chan_ops::validate(args),
         "OPS" => chan_ops::ops(args),
+        "FFI" => chan_ffi::ffi(args),
         "ADMENC" => chan_adm::admenc(args),
         "ADMSPEC" => chan_adm::admspec(args),
         "ADMDEC" => chan_adm::admdec(args),
@@ -85,6 +87,10 @@ fn run_line(line: &str) -> String {
 fn main() {
     if std::env::args().nth(1).as_deref() == Some("--one-sched") {
         chan_now::sched_child_main();
+        return;
+    }
+    if std::env::args().nth(1).as_deref() == Some("--one-ffi") {
+        chan_ffi::ffi_child_main();
         return;
     }
     if std::env::args().nth(1).as_deref() == Some("--one-srb") {
